@@ -232,10 +232,14 @@ AUDIT_TEMPLATE = """import Lean
 open Lean Elab Command in
 run_cmd do
   let env ← getEnv
+  let mut idxs : Array ModuleIdx := #[]
   for modName in [{mods}] do
     let some idx := env.getModuleIdx? modName | throwError "no module {{modName}}"
-    for (n, ci) in env.constants.map₁.toList do
-      if env.getModuleIdxFor? n == some idx then
+    idxs := idxs.push idx
+  -- one pass over the environment for all listed modules
+  for (n, ci) in env.constants.map₁.toList do
+    if let some i := env.getModuleIdxFor? n then
+      if idxs.contains i then
         if let .thmInfo _ := ci then
           if !n.isInternalDetail then
             let axs ← Lean.collectAxioms n
